@@ -506,6 +506,43 @@ func c12R4(c *Ctx, r *Report) {
 		}
 		r.check(len(problems) == 0, "C12.R5.fresh-writer", name, c.pos(f.Pos()), "new(response) per call", "%s", strings.Join(problems, "; "))
 	}
+	// what goes back into the buffer pool has the pool's element size: a short slice would be handed to a later read
+	r.rule("C12.R4.pool-put-size", 4, "every buffer returned to the UDP pool is re-sliced to srv.UDPSize (or is the untouched buffer just taken from it)")
+	nPut := 0
+	for _, name := range []string{"Server.serveUDP", "Server.serveDNS", "Server.readUDP", "Server.readPacketConn", "Server.serveUDPPacket"} {
+		f := c.ssaFunc(name)
+		if f == nil {
+			continue
+		}
+		for _, ci := range callsIn(f, "(sync.Pool).Put") {
+			if !anyIn(sliceOf(ci.Common().Args[0]), readsField("Server", "udpPool")) {
+				continue
+			}
+			nPut++
+			arg := ci.Common().Args[1]
+			if mi, ok := arg.(*ssa.MakeInterface); ok {
+				arg = mi.X
+			}
+			ok := false
+			if sl, isSl := arg.(*ssa.Slice); isSl && sl.Low == nil && sl.High != nil && anyIn(sliceOf(sl.High), readsField("Server", "UDPSize")) {
+				ok = true
+			}
+			if ta, isTA := arg.(*ssa.TypeAssert); isTA {
+				if call, isCall := ta.X.(*ssa.Call); isCall && calleeNameSSA(&call.Call) == "(sync.Pool).Get" {
+					ok = true
+				}
+			}
+			if ex, isEx := arg.(*ssa.Extract); isEx {
+				// m, ok := Get().([]byte)
+				if ta, isTA := ex.Tuple.(*ssa.TypeAssert); isTA {
+					if call, isCall := ta.X.(*ssa.Call); isCall && calleeNameSSA(&call.Call) == "(sync.Pool).Get" {
+						ok = true
+					}
+				}
+			}
+			r.check(ok, "C12.R4.pool-put-size", fmt.Sprintf("%s:Put#%d", name, nPut), c.pos(ci.Pos()), "m[:UDPSize]", "a buffer goes back into the pool at the length of the datagram it last held, not re-sliced to srv.UDPSize: the next read that gets it can take at most that many octets, so later (larger) requests are truncated and dropped")
+		}
+	}
 	// a TCP connection reuses its writer: per-request state is reset for every request
 	r.rule("C12.R5.writer-reset", 1, "the per-request TSIG state of a reused response writer is reset before the handler runs")
 	if status, chain, pos, ok := serverTsigState(c); !ok {
